@@ -50,12 +50,13 @@ use std::fs;
 use std::io::{self, Read, Seek, SeekFrom, Write};
 use std::mem::size_of;
 use std::path::{Path, PathBuf};
-use std::sync::{Arc, RwLock, RwLockReadGuard, RwLockWriteGuard};
+use std::sync::Arc;
 
 use fnv::FnvHashSet;
 use uuid::Uuid;
 
 use crate::internal::consts;
+use crate::internal::sync::{RwLock, RwLockReadGuard, RwLockWriteGuard};
 use crate::internal::DEFAULT_STREAM_MAX_BUFFER_SIZE;
 use crate::internal::{
     Allocator, DirEntry, Directory, EntriesOrder, Header, MiniAllocator,
